@@ -17,10 +17,6 @@ package json
 //@ spec plus(k, r) = ite(r > 0, k + r, 0)
 //@ ghostfun wsLen(bytes) int
 //@ axiom ws_def(b bytes): wsLen(b) == ite(len(b) > 0 && isSpaceB(b[0]), 1 + wsLen(b[1:]), 0)
-// the recursive wsLen is the unique "first non-space index" (proved by induction; lets a library
-// call that returns that index stand in for the scanning loop)
-//@ lemma C08C09_ws_unique(b bytes, k int) induction k use ws_def: forall i :: 0 <= i && 0 <= k && i + k <= len(b) && (forall j :: i <= j && j < i + k ==> isSpaceB(b[j])) && (i + k < len(b) ==> !isSpaceB(b[i + k])) ==> wsLen(b[i:]) == k
-//@ lemma C08C09_ws_unique0(b bytes, k int) use C08C09_ws_unique: 0 <= k && k <= len(b) && (forall j :: 0 <= j && j < k ==> isSpaceB(b[j])) && (k < len(b) ==> !isSpaceB(b[k])) ==> wsLen(b) == k
 //@ spec isHexB(c) = ('0' <= c && c <= '9') || ('a' <= c && c <= 'f') || ('A' <= c && c <= 'F')
 //@ spec isEscB(c) = c == '"' || c == '\\' || c == '/' || c == 'b' || c == 'f' || c == 'n' || c == 'r' || c == 't'
 // strLen(b): b starts inside a string (after the opening quote); length up to and including the
@@ -272,7 +268,7 @@ package json
 
 //@ func json.LooksLikeObjectOrArray
 //@   ensures [C08C09_G_looks] result == (wsLen(raw) < len(raw) && (raw[wsLen(raw)] == '{' || raw[wsLen(raw)] == '['))
-//@   uses ws_def, C08C09_ws_unique0
+//@   uses ws_def
 //@   loop 1 invariant [C08C09_G_looks_inv] wsLen(raw) == rangeindex + 1 + wsLen(raw[rangeindex+1:])
 //@   ensures [C09_looks] result ==> (exists i :: 0 <= i && i < len(raw) && (raw[i] == '{' || raw[i] == '[') && (forall j :: 0 <= j && j < i ==> isSpaceB(raw[j])))
 //@   loop 1 invariant [C09_looks_inv] forall j :: 0 <= j && j <= rangeindex ==> isSpaceB(raw[j])
